@@ -271,6 +271,17 @@ type mwUpstream struct {
 	log     []string
 	signReq []mwSignReq
 	added   []agent.AddedKey
+	nconns  []net.Conn // natively: the server side of the connections the shim opened
+}
+
+// dropNative: natively a transport failure is a dropped connection (the
+// x/crypto client then reports "agent: client error: EOF")
+func (u *mwUpstream) dropNative() {
+	if vIsNative() && strings.HasPrefix(u.failText, "agent: client error") {
+		for _, c := range u.nconns {
+			c.Close()
+		}
+	}
 }
 
 type mwSignReq struct {
@@ -398,6 +409,7 @@ func (u *mwUpstream) Signers() ([]ssh.Signer, error) {
 
 func (u *mwUpstream) Lock(p []byte) error {
 	if u.fault("Lock") {
+		u.dropNative()
 		if u.failText != "" {
 			return errors.New(u.failText)
 		}
@@ -413,6 +425,7 @@ func (u *mwUpstream) Lock(p []byte) error {
 
 func (u *mwUpstream) Unlock(p []byte) error {
 	if u.fault("Unlock") {
+		u.dropNative()
 		if u.failText != "" {
 			return errors.New(u.failText)
 		}
@@ -524,6 +537,7 @@ func mwNewServer(up *mwUpstream, noUpstream bool) *Server {
 				if err != nil {
 					return
 				}
+				up.nconns = append(up.nconns, c)
 				go agent.ServeAgent(up, c)
 			}
 		}()
